@@ -280,6 +280,32 @@ func runFoScenario(d *Driver, id string, sc foScenario, res *Result) (trace []st
 		}
 		return strings.Join(parts, " ")
 	}
+	// settle = quiesce + self-consistency of the observation: every started goroutine is parked at a call-out, has returned,
+	// or is one of the waiters the stack dump shows blocked in waitForValue. (A goroutine seen in none of these states was
+	// caught between two of them; the observation is repeated instead of being compared with the model.)
+	settle := func() (int, string) {
+		var waiters int
+		var hang string
+		for attempt := 0; attempt < 200; attempt++ {
+			waiters, hang = s.quiesce(5 * time.Second)
+			if hang != "" {
+				return waiters, hang
+			}
+			s.mu.Lock()
+			unaccounted := 0
+			for t := 0; t < n; t++ {
+				if started[t] && s.parked[t] == nil && s.results[t] == nil {
+					unaccounted++
+				}
+			}
+			s.mu.Unlock()
+			if unaccounted <= waiters {
+				return waiters, ""
+			}
+			time.Sleep(100 * time.Microsecond)
+		}
+		return waiters, ""
+	}
 	maxT := func() int {
 		m := 0
 		for t := 0; t < n; t++ {
@@ -643,7 +669,7 @@ func runFoScenario(d *Driver, id string, sc foScenario, res *Result) (trace []st
 				step = fmt.Sprintf("resume g%d from build(k%d) -> %v", t, k, map[bool]string{true: "ok", false: "error"}[b.OK])
 			}
 			s.resumeWith(co, dir)
-			_, hang := s.quiesce(5 * time.Second)
+			_, hang := settle()
 			if hang != "" {
 				if v := emit(&foViolation{"C04", "monitor", "fo:hang", "after " + step + ": " + hang[:min(len(hang), 500)], nil}); v != nil {
 					return trace, v
@@ -729,7 +755,7 @@ func runFoScenario(d *Driver, id string, sc foScenario, res *Result) (trace []st
 			}
 			continue
 		}
-		_, hang := s.quiesce(5 * time.Second)
+		_, hang := settle()
 		if hang != "" {
 			if v := emit(&foViolation{"C04", "monitor", "fo:hang", "after " + step + ": " + hang[:min(len(hang), 500)], nil}); v != nil {
 				return trace, v
